@@ -460,4 +460,10 @@ def obligations(tier):
         obs.append(lemma_ob(l))
     # the step contracts assume Inv(idx, b, n_eff) with the sentinel of the index's own batch size: the constructors establish it
     obs += _ctor_sentinels()
+    # ... and the initial store they build is the whole point set (for observation rows: the index vector 0..n-1, with or
+    # without a storage sharding) — the C15 constructor contract, needed by "every point is served" and re-checked here
+    from contracts import c15
+    for o in (c15.obs_constructor(("n", 1), ("n", 1), sharding=True, eq_keys=("nu", "D")), c15.obs_constructor(("n", 2), ("n", 1))):
+        o.name = o.name.replace("C15/", "C09/initial_store/")
+        obs.append(o)
     return obs
